@@ -47,6 +47,7 @@ type runner struct {
 	nonRoot bool // children can be run as an unprivileged user
 	aloneMu sync.Mutex
 	alone   map[string]*aloneRes
+	nshrunk map[string]int
 }
 
 type aloneRes struct {
@@ -68,7 +69,7 @@ func main() {
 		prop = "C04"
 	}
 	res := common.NewResult(prop, f.Tier, f.Seed)
-	rn := &runner{f: f, res: res, alone: map[string]*aloneRes{}}
+	rn := &runner{f: f, res: res, alone: map[string]*aloneRes{}, nshrunk: map[string]int{}}
 	if err := rn.prepare(); err != nil {
 		res.Notes = append(res.Notes, "cannot prepare: "+err.Error())
 		res.Violate(common.Violation{Kind: "correspondence", Oracle: "runner-setup", Key: "runner-setup", Detail: err.Error(), Input: map[string]string{}})
@@ -212,7 +213,7 @@ func (rn *runner) runBatch(b *Batch, dl *DeadlineJob) *runObs {
 	os.WriteFile(jobPath, jb, 0o644)
 	env := []string{
 		"PATH=" + filepath.Join(dir, "bin") + ":/usr/bin:/bin",
-		"HOME=/nonexistent-home",
+		"HOME=/nonexistent-home-" + ro.canary,
 		"TMPDIR=" + filepath.Join(dir, "tmp"),
 		"GOTMPDIR=" + filepath.Join(dir, "tmp"),
 		"LANG=C",
@@ -764,7 +765,11 @@ func (rn *runner) report(b *Batch, fs []finding, doShrink bool) {
 		}
 		seen[f.oracle] = true
 		mb := b
-		if doShrink && f.oracle != "hang" && f.oracle != "race-detector" {
+		rn.rmu.Lock()
+		rn.nshrunk[f.oracle]++
+		first := rn.nshrunk[f.oracle] <= 2 // at most two witnesses per oracle are minimised
+		rn.rmu.Unlock()
+		if doShrink && first && f.oracle != "hang" && f.oracle != "race-detector" {
 			mb = rn.shrink(b, f.oracle)
 		}
 		j, _ := json.Marshal(mb)
